@@ -1,5 +1,6 @@
 import TaskModel.Resolve.Table
 import TaskModel.Resolve.Suggest
+import TaskModel.Gen.ResolveOrder
 import Driver.Util
 namespace Driver.Resolve
 open TaskModel.Resolve Driver
@@ -70,7 +71,7 @@ def doSuggest : List String → Option String
     let words ← (r.take n).mapM bytesOf
     let req ← bytesOf (r.getD n "")
     let dym ← bytesOf (r.getD (n + 1) "")
-    let e := TaskModel.Resolve.Suggest.classify words req
+    let e := TaskModel.Resolve.Suggest.classify (if TaskModel.Gen.ResolveOrder.fuzzyMaxWordLen = 0 then words else TaskModel.Resolve.Suggest.trained TaskModel.Gen.ResolveOrder.fuzzyMaxWordLen words) req
     let cls := match e with
       | .skip => "skip" | .must _ => "must" | .oneOf _ => "oneof" | .none => "none" | .any => "any"
     let ok := TaskModel.Resolve.Suggest.meets e (if dym.isEmpty then Option.none else some dym)
